@@ -385,9 +385,15 @@ func (c Case) Seqs() (align.AlphabetSlicer, align.AlphabetSlicer) {
 	a := Alpha(c.Alpha)
 	mk := func(id, s string) align.AlphabetSlicer {
 		if c.QLetters {
+			// the two sequences carry different qualities at the same positions (and never the
+			// same run of qualities): qualities take no part in the alignment
 			ql := make([]alphabet.QLetter, len(s))
 			for i := range ql {
-				ql[i] = alphabet.QLetter{L: alphabet.Letter(s[i]), Q: alphabet.Qphred(10 + i%30)}
+				q := 10 + i%30
+				if id == "q" {
+					q = 12 + (i*7)%23
+				}
+				ql[i] = alphabet.QLetter{L: alphabet.Letter(s[i]), Q: alphabet.Qphred(q)}
 			}
 			return linear.NewQSeq(id, ql, a, alphabet.Sanger)
 		}
